@@ -112,6 +112,17 @@ func (r *Reconciler) Reconcile(ctx context.Context, request reconcile.Request) (
 
 	// now apply the strategy depending on the ReplicaSet state
 	strategyResult, err := r.applyStrategy(reqLogger, daemonsetInstance, now, strategyParams)
+	if err != nil && (strategyResult == nil || strategyResult.NewStatus == nil) {
+		// the strategy could not compute a status at all (e.g. a value of the rolling-update strategy that is neither a
+		// number nor a percentage): nothing can be done for the pods, report the error in the status of the replica set.
+		failedStatus := replicaSetInstance.Status.DeepCopy()
+		conditions.UpdateErrorCondition(failedStatus, now, err, "unable to apply the deployment strategy")
+		if errUpdate := r.updateReplicaSet(replicaSetInstance, failedStatus); errUpdate != nil {
+			return reconcile.Result{}, errUpdate
+		}
+
+		return reconcile.Result{}, err
+	}
 	newStatus := strategyResult.NewStatus
 	result := strategyResult.Result
 
